@@ -174,7 +174,7 @@ func differential(t *testing.T, s *Server, xchg exchanger) {
 		}
 		s.ResetJournal()
 		m := newModel()
-		cmds := rapid.SliceOfN(rapid.Custom(genCmd), 1, 80).Draw(t, "cmds")
+		cmds := rapid.SliceOfN(rapid.Custom(genCmd), 10, 120).Draw(t, "cmds")
 
 		replies := xchg(t, cmds)
 		if len(replies) != len(cmds) {
